@@ -1244,7 +1244,60 @@ def check_seqmerge_params(u):
     return obligations, failures, ["%s:%d %s" % (file, _line(src, ao), ps)]
 
 
-CHECKS = {"seqmerge_params": check_seqmerge_params, "chunker_ranges": check_chunker_ranges, "persist_before_publish": check_persist_before_publish, "schema_reload": check_schema_reload, "cluster_id_fresh": check_cluster_id_fresh, "schema_ddl": check_schema_ddl, "schema_atomic": check_schema_atomic, "seq_range_guard": check_seq_range_guard, "exits_covered": check_exits_covered, "sub_lag_stops": check_sub_lag_stops, "single_snapshot": check_single_snapshot, "offer_loops": check_offer_loops, "speedy_prealloc": check_speedy_prealloc, "from_conn": check_from_conn, "sql_actor_scoping": check_sql_actor_scoping, "local_write_sequence": check_local_write_sequence, "insert_local_changes": check_insert_local_changes, "authz_layer": check_authz_layer, "readonly_guard": check_readonly_guard, "read_pool": check_read_pool}
+def check_exists_binding(u):
+    """C05: whether a version the server has no live change for is declared empty hinges on two flags read from one query:
+    `in_gaps` (the version lies in a recorded gap: the server lacks it) and `buffered` (chunks of it are buffered: the server holds it only
+    partially).  The Verus fragments of c05_serve take the two flags as given; this obligation ties them to the query: each name is bound
+    to the column with that alias, the alias is computed from the right table with the right filter, and the parameters are this actor and
+    this version."""
+    from .lex import iter_string_literals
+    file = u["file"]
+    src, msk, o, c = _fn_body(file, u["fn"])
+    obligations, failures, samples = [], [], []
+    lets = list(re.finditer(r"\blet\s*\(\s*(\w+)\s*,\s*(\w+)\s*\)\s*(?::\s*\(\s*bool\s*,\s*bool\s*\))?\s*=\s*tx", msk[o:c]))
+    if not lets:
+        raise LostAnchor("handle_need: `let (in_gaps, buffered) = tx.prepare_cached(…)` not found")
+    for k, m in enumerate(lets):
+        st = o + m.start()
+        e = st
+        while e < c and msk[e] != ";":
+            if msk[e] in "([{":
+                e = match_delim(msk, e)
+            e += 1
+        stmt = src[st:e]
+        lit = [(p_, t_) for (p_, t_) in iter_string_literals(src) if st <= p_ < e and "EXISTS" in t_]
+        if not lit:
+            continue
+        sql = lit[0][1]
+        name = "gap-and-buffered-flags-bound-to-their-queries:site-%d" % (len(obligations) + 1)
+        obligations.append(name)
+        aliases = re.findall(r"\)\s*AS\s+(\w+)", sql)
+        subs = re.findall(r"EXISTS\s*\(\s*SELECT\s+1\s+FROM\s+(\w+)\s+WHERE\s+(.*?)\)\s*AS\s+\w+", sql, re.S)
+        gets = [int(x) for x in re.findall(r"row\.get\((\d+)\)", stmt)]
+        names = [m.group(1), m.group(2)]
+        ln = _line(src, st)
+        if len(aliases) != 2 or len(subs) != 2 or len(gets) != 2:
+            raise Unsupported("handle_need: flag query shape not recognised at line %d" % ln)
+        for nm, gi in zip(names, gets):
+            if gi >= len(aliases) or aliases[gi] != nm:
+                failures.append((name, ln, "`%s` is read from column #%d, which the query calls `%s`" % (nm, gi, aliases[gi] if gi < len(aliases) else "?")))
+        want = {"in_gaps": ("__corro_bookkeeping_gaps", [r"actor_id\s*=\s*:actor_id", r":version\s+BETWEEN\s+start\s+AND\s+end"]),
+                "buffered": ("__corro_buffered_changes", [r"site_id\s*=\s*:actor_id", r"db_version\s*=\s*:version"])}
+        for al, (tbl, where) in zip(aliases, subs):
+            if al in want:
+                wt, conds = want[al]
+                if tbl != wt or not all(re.search(cnd, " ".join(where.split())) for cnd in conds):
+                    failures.append((name, ln, "`%s` is computed from `%s WHERE %s`, expected %s with %s" % (al, tbl, " ".join(where.split()), wt, " AND ".join(conds))))
+        ps = dict((mm.group(1), re.sub(r"[\s\*&]", "", mm.group(2))) for mm in re.finditer(r'":(\w+)"\s*:\s*([^,\n}]+)', stmt))
+        if ps.get("actor_id") != "actor_id" or ps.get("version") != "version":
+            failures.append((name, ln, "query parameters are bound to %s" % ps))
+        samples.append("%s:%d (%s, %s) <- columns %s of aliases %s" % (file, ln, names[0], names[1], gets, aliases))
+    if not obligations:
+        raise LostAnchor("handle_need: no EXISTS flag query found")
+    return obligations, failures, samples
+
+
+CHECKS = {"exists_binding": check_exists_binding, "seqmerge_params": check_seqmerge_params, "chunker_ranges": check_chunker_ranges, "persist_before_publish": check_persist_before_publish, "schema_reload": check_schema_reload, "cluster_id_fresh": check_cluster_id_fresh, "schema_ddl": check_schema_ddl, "schema_atomic": check_schema_atomic, "seq_range_guard": check_seq_range_guard, "exits_covered": check_exits_covered, "sub_lag_stops": check_sub_lag_stops, "single_snapshot": check_single_snapshot, "offer_loops": check_offer_loops, "speedy_prealloc": check_speedy_prealloc, "from_conn": check_from_conn, "sql_actor_scoping": check_sql_actor_scoping, "local_write_sequence": check_local_write_sequence, "insert_local_changes": check_insert_local_changes, "authz_layer": check_authz_layer, "readonly_guard": check_readonly_guard, "read_pool": check_read_pool}
 
 
 def run_unit(prop, u, tier, ctx, here):
